@@ -44,7 +44,7 @@ def write_csv(path, rows, order, with_adj=True, int_opens=False):
             cells = [r['date'], fmt(r['open'], int_opens), fmt(hi), fmt(lo), fmt(r['close'])]
             if with_adj:
                 cells.append(fmt(r['adj']))
-            cells.append(str(1000 + i))
+            cells.append(str(r.get('volume', 1000 + i)))
             f.write(','.join(cells) + '\n')
 
 
